@@ -260,6 +260,10 @@ class Connector:
     connected.upon(accept, enter=connected, outputs=[])
     connected.upon(stop, enter=stopped, outputs=[stop_everything])
 
+    # consider() schedules accept() for a later turn: a stop() may come first
+    # (stop_everything already disconnected the candidate)
+    stopped.upon(accept, enter=stopped, outputs=[])
+
     # from Manager: start, got_hints, stop
     # maybe add_candidate, accept
 
